@@ -109,6 +109,43 @@ def dimEnv (d : Dim) (s : String) : Option Bool :=
   else if s == "has:<array id>" then some d.alias
   else none
 
+/-! ## readers of a range dimension (`nixio/dimensions.py`) -/
+
+/-- where a getter of `RangeDimension` takes its answer from -/
+inductive Source where
+  | redirect      -- the group behind the old alias link (`_redirgrp`)
+  | link          -- the `DimensionLink`
+  | own           -- the dimension group itself
+  deriving DecidableEq, Repr
+
+/-- first rule whose test holds -/
+def firstMatch {α : Type} (env : String → Option Bool) : List (BExp × α) → α → Option α
+  | [], d => some d
+  | (t, a) :: rest, d => match t.eval env with
+    | none => none
+    | some true => some a
+    | some false => firstMatch env rest d
+
+/-- atoms of `is_alias`; `len(self._h5group) > 0`: the group's members are `ticks`, `link` and the alias link -/
+def readEnv (d : Dim) (s : String) : Option Bool :=
+  if s == "has:ticks" then some d.ticks.isSome
+  else if s == "has:link" then some d.link.isSome
+  else if s == "nonempty" then some (d.ticks.isSome || d.link.isSome || d.alias)
+  else if s == "link:DataArray" then some (match d.link with | some l => l.dataObjectType == "DataArray" | none => false)
+  else none
+
+/-- atoms of the getters: `is_alias` as computed by the rules of the source -/
+def getterEnv (isAlias : Bool) (d : Dim) (s : String) : Option Bool :=
+  if s == "is_alias" then some isAlias
+  else if s == "has:link" then some d.link.isSome
+  else none
+
+/-- the source `readDim` reads from -/
+def sourceOf (d : Dim) : Source :=
+  if isAliasRead d && d.link.isNone then .redirect
+  else if d.link.isSome then .link
+  else .own
+
 /-! ## one property conversion -/
 
 inductive Column where
